@@ -79,10 +79,19 @@ type (
 		Init   []uint   `json:"init"`
 	}
 	verifC02NumCase struct {
-		Kind string           `json:"kind"` // num | time
-		N    int64            `json:"n"`    // constant of the condition
-		Own  uint64           `json:"own"`  // value of the stream under consideration (factor +1)
-		Subs []verifC02NumSub `json:"subs"`
+		Kind string           `json:"kind"` // num | time | flag | host
+		N    int64            `json:"n"`    // constant of the condition (flag: Value)
+		Own  uint64           `json:"own"`  // value of the stream under consideration (factor +1; flag: its flags; host: its stream index)
+		Subs []verifC02NumSub `json:"subs"` // host: vals = stream indexes of the sub-query results
+		// flag
+		Mask uint16 `json:"mask"`
+		// host: an index with these (client, server) hosts is built; which side of this stream / of the sub-query stream
+		Streams     [][2]string `json:"streams"`
+		MyServer    bool        `json:"myserver"`
+		OtherServer bool        `json:"otherserver"`
+		Invert      bool        `json:"invert"`
+		Mask4       string      `json:"mask4"`
+		Mask6       string      `json:"mask6"`
 	}
 	verifC02Cases struct {
 		Base int64             `json:"base"` // unix seconds
@@ -441,7 +450,71 @@ func verifC02Num(w *bufio.Writer, ci int, c verifC02NumCase, r *Reader) {
 	}
 	conds := query.Conditions{}
 	own := &stream{}
-	if c.Kind == "time" {
+	if c.Kind == "host" {
+		// a real index with the wanted hosts; the sub-query results and this stream are streams of it
+		wr, err := NewWriter(filepath.Join(os.TempDir(), fmt.Sprintf("verifc02host_%d_%d.idx", os.Getpid(), ci)))
+		if err != nil {
+			panic(err)
+		}
+		for i, hs := range c.Streams {
+			st, err := verifC02MakeStream(time.Unix(1577880000, 0), verifC02Stream{ID: uint64(i), CH: hs[0], SH: hs[1], CP: 1, SP: 2, CB: 1, SB: 1, FT: 0, LT: 1000000000, Proto: "tcp"})
+			if err != nil {
+				panic(err)
+			}
+			if ok, err := wr.AddStream(st, uint64(i)); err != nil || !ok {
+				panic(fmt.Sprintf("AddStream %v %v", ok, err))
+			}
+		}
+		hr, err := wr.Finalize()
+		if err != nil {
+			panic(err)
+		}
+		defer func() {
+			hr.Close()
+			os.Remove(hr.Filename())
+		}()
+		r = hr
+		for i, sub := range c.Subs {
+			rd := resultData{matchingQueryPart: make([]bitmask.ConnectedBitmask, 1)}
+			for pos, v := range sub.Vals {
+				ss, err := r.streamByIndex(uint32(v))
+				if err != nil {
+					panic(err)
+				}
+				st, err := ss.wrap(r, uint32(v))
+				if err != nil {
+					panic(err)
+				}
+				rd.streams = append(rd.streams, st)
+				rd.matchingQueryPart[0].Set(uint(pos))
+			}
+			prev[name(i)] = rd
+		}
+		o, err := r.streamByIndex(uint32(c.Own))
+		if err != nil {
+			panic(err)
+		}
+		own = o
+		side := func(server bool) query.HostConditionSourceType {
+			if server {
+				return query.HostConditionSourceTypeServer
+			}
+			return query.HostConditionSourceTypeClient
+		}
+		conds = append(conds, &query.HostCondition{
+			HostConditionSources: []query.HostConditionSource{{Type: side(c.MyServer), SubQuery: ""}, {Type: side(c.OtherServer), SubQuery: name(0)}},
+			Mask4:                verifC02ParseIP(c.Mask4), Mask6: verifC02ParseIP(c.Mask6), Invert: c.Invert,
+		})
+	} else if c.Kind == "flag" {
+		for i, sub := range c.Subs {
+			rd := prev[name(i)]
+			for pos, v := range sub.Vals {
+				rd.streams[pos].Flags = uint16(v)
+			}
+		}
+		conds = append(conds, &query.FlagCondition{SubQueries: []string{"", name(0)}, Value: uint16(c.N), Mask: c.Mask})
+		own.Flags = uint16(c.Own)
+	} else if c.Kind == "time" {
 		tc := &query.TimeCondition{Duration: time.Duration(c.N)}
 		tc.Summands = append(tc.Summands, query.TimeConditionSummand{SubQuery: "", FTimeFactor: 1})
 		for i, sub := range c.Subs {
